@@ -60,6 +60,54 @@ pub struct MrpCfg {
     pub victims: Vec<Planted>,
     /// (time in ms, node which loses its side of the session, victim index)
     pub closes: Vec<(u64, usize, usize)>,
+    /// Datagrams of the raw peer (sessions with `b == RAW_NODE` in `planted`)
+    pub raw_msgs: Vec<RawMsg>,
+    /// Do not end the run before this time (the raw peer's script is still running)
+    pub hold_until_us: u64,
+}
+
+/// Node index of the raw peer: not an rs-matter stack but harness-made traffic of a peer which
+/// holds the keys of its sessions (a conforming implementation other than rs-matter)
+pub const RAW_NODE: usize = 100;
+
+/// One datagram of the raw peer, authentic under the keys of a planted session
+#[derive(Clone, Debug)]
+pub struct RawMsg {
+    pub at_us: u64,
+    /// Index into `MrpCfg::planted` (a session whose `b` end is `RAW_NODE`)
+    pub planted: usize,
+    pub ctr: u32,
+    pub exch_id: u16,
+    pub initiator: bool,
+    pub reliable: bool,
+    pub ack: Option<u32>,
+    pub vendor: Option<u16>,
+    pub proto_id: u16,
+    pub opcode: u8,
+    pub payload: Vec<u8>,
+}
+
+/// The bytes of a raw peer datagram
+pub fn raw_bytes(p: &Planted, m: &RawMsg) -> Vec<u8> {
+    use crate::wire;
+    let mut xf = 0u8;
+    if m.initiator {
+        xf |= wire::XF_INITIATOR;
+    }
+    if m.reliable {
+        xf |= wire::XF_RELIABLE;
+    }
+    let proto = wire::Proto {
+        exch_flags: xf,
+        opcode: m.opcode,
+        exch_id: m.exch_id,
+        proto_id: m.proto_id,
+        vendor: m.vendor,
+        ack: m.ack,
+        payload: m.payload.clone(),
+    };
+    // The raw peer is the `b` end: it sends to `a` under key b -> a, addressed by a's session id
+    wire::encode(p.a_local_sid, 0, m.ctr, None, None, &proto, Some(&p.key_ba), p.nonce_node(p.b))
 }
 
 #[derive(Clone, Copy, Debug)]
@@ -338,6 +386,8 @@ pub fn gen_cfg(seed: u64, knobs: &MrpKnobs) -> MrpCfg {
         group_fabric: None,
         victims,
         closes,
+        raw_msgs: Vec::new(),
+        hold_until_us: 0,
         planted,
         workloads,
         handlers,
@@ -647,6 +697,18 @@ pub fn drive_with(
         exec.spawn(node, move |shared| stack_root(ctx, shared));
     }
 
+    // The raw peer's datagrams
+    for m in &cfg.raw_msgs {
+        let p = &cfg.planted[m.planted];
+        let bytes = raw_bytes(p, m);
+        let dst = net::node_addr(p.a);
+        let net = net.clone();
+        let lat = cfg.net.latency_us.max(100);
+        kernel::at(m.at_us, move || {
+            net.inject(RAW_NODE, dst, &bytes, lat);
+        });
+    }
+
     // Run until the workloads are done and the stacks have settled, or the limit is hit
     let mut stop;
     let mut all_done = false;
@@ -668,7 +730,7 @@ pub fn drive_with(
             exec.cancel_task(node, 1 + h % n_h);
             *fired.borrow_mut().entry("cancel_handler").or_default() += 1;
         }
-        if active.get() == 0 && busy.get() == 0 {
+        if active.get() == 0 && busy.get() == 0 && kernel::now() >= cfg.hold_until_us {
             let mut settled = true;
             for node in 0..n_nodes {
                 exec.probe(node);
